@@ -72,8 +72,8 @@ def lockstep_tree(args):
 
 
 POOL = {
-    "DT": ["20200101", "2020", "202013", "20200230", "x"], "TM": ["1201", "2400", "120000.1234+0100", "12+1500"],
-    "DTM": ["202001011200", "20200101120000.12345", "2020-01-01"], "NM": ["12.5", "1e5", " 1", "x", "12345678901234567"],
+    "DT": ["20200101", "2020", "202013", "20200230", "x", "202401 5"], "TM": ["1201", "2400", "120000.1234+0100", "12+1500", "12+1430", "1200-1230", "120000.12345"],
+    "DTM": ["202001011200", "20200101120000.12345", "2020-01-01", "202001011200+1401", "20200101120000-1259"], "NM": ["12.5", "1e5", " 1", "x", "12345678901234567"],
     "SI": ["7", "-1", "12345", "x"], "ST": ["text", "a|b", "x" * 250], "ID": ["Y", "x" * 30], "IS": ["M", "y" * 25],
     "FT": ["line\\.br\\two", "a^b"], "TX": ["t"], "TN": ["(555)555-1234", "abc"],
 }
@@ -104,6 +104,7 @@ def parse_lockstep(args):
             except Exception as ex:
                 res[name] = (exc_name(ex), [], [], [])
         out.append({"what": "parse:" + api, "conc": v, "leafdt": str(extra) if api == "leaf" else "", "leaflen": len(text) if api == "leaf" else 0,
+                    "leafin": cps(text) if api == "leaf" and str(extra) in ("DT", "TM", "DTM", "NM", "SI") and all(ord(c_) < 128 for c_ in text) else [],
                     "out_s": res["s"][0], "out_t": res["t"][0], "enc_s": res["s"][1],
                     "enc_t": res["t"][1], "rep_s": res["s"][2], "rep_t": res["t"][2], "kinds_s": res["s"][3], "step": 0,
                     "detail": [text[:200], str(extra)]})
@@ -329,6 +330,7 @@ def run(ctx):
     for e in events:
         e.setdefault("leafdt", "")
         e.setdefault("leaflen", 0)
+        e.setdefault("leafin", [])
     send = [{k: e[k] for k in e if k not in ("detail", "what", "conc", "step")} for e in events]
     failed, trivial = judge(ctx, "StrictnessTrace", "StrictnessTrace.cfg", send)
     byid = {e["id"]: e for e in events}
